@@ -227,6 +227,25 @@ def gen_history(seed):
     n_dec = rng.choice([1, 1, 2, 3])
     decoders = [{'kind': rng.choice(decs), 'rate': rng.choice(RATES)}
                 for _ in range(n_dec)]
+    # a second noise model in the same batch that differs from the first
+    # only in the deformation axis (or in the fifth decimal of the
+    # direction): same label, different channel
+    noise2 = None
+    if n_dec > 1 and rng.random() < 0.5:
+        noise2 = dict(noise)
+        if noise.get('deformation_name') == 'XZZX' and rng.random() < 0.7:
+            noise2['deformation_kwargs'] = {
+                'deformation_axis': rng.choice(['x', 'y'])}
+        else:
+            keys = ['r_x', 'r_y', 'r_z']
+            big = max(keys, key=lambda k: noise2[k])
+            oth = rng.choice([k for k in keys if k != big])
+            noise2[big] -= 3e-5
+            noise2[oth] += 3e-5
+        for d in decoders[1:]:
+            if rng.random() < 0.6:
+                d['noise2'] = True
+                d['rate'] = decoders[0]['rate']
     cfg = {'code': cname, 'params': params, 'deform': deform}
     n = make_code(cfg).n
     ops = []
@@ -256,7 +275,8 @@ def gen_history(seed):
             if rng.random() < 0.3:
                 op['ki_line'] = rng.randint(1, 120)
     return {'property': PROP, 'kind': 'history', 'seed': seed, 'cfg': cfg,
-            'noise': noise, 'decoders': decoders, 'ops': ops,
+            'noise': noise, 'noise2': noise2, 'decoders': decoders,
+            'ops': ops,
             'syn_dtype': rng.choice(['native', 'native', 'int64'])}
 
 
@@ -307,10 +327,16 @@ def execute_here(plan, keep_events=False):
         cfg, nz = plan['cfg'], plan['noise']
         code = make_code(cfg)
         noise = make_noise(nz)
+        nz2 = plan.get('noise2')
+        noise_b = make_noise(nz2) if nz2 else None
+        if noise_b is not None:
+            sim.probe('two_near_identical_noise_models_in_pool')
         decs = []
         for d in plan['decoders']:
             try:
-                decs.append(make_decoder(code, noise, d))
+                decs.append(make_decoder(
+                    code, noise_b if d.get('noise2') and noise_b is not None
+                    else noise, d))
             except Exception as e:
                 decs.append(None)
                 sim.probe('decoder_construct_raised_' + type(e).__name__)
@@ -319,6 +345,8 @@ def execute_here(plan, keep_events=False):
         # that the shared objects' caches are first filled by the code under
         # test itself (possibly inside an interrupted call)
         env0 = env_digests(make_code(cfg), make_noise(nz), rates)
+        env0b = (env_digests(make_code(cfg), make_noise(nz2), rates)
+                 if nz2 else None)
         n = code.n
         if plan['kind'] == 'pairs':
             ops = pair_ops(code, plan)
@@ -400,7 +428,8 @@ def execute_here(plan, keep_events=False):
                     'decoder': dspec['kind'], 'call': oi,
                     'changed_entries': int(np.sum(np.asarray(s) != s_copy))})
                 break
-            want = fresh_outcome(cfg, nz, dspec, op['error'], dtype)
+            want = fresh_outcome(cfg, nz2 if dspec.get('noise2') and nz2
+                                 else nz, dspec, op['error'], dtype)
             if want[0] == 'construct_raised':
                 continue
             if dspec['kind'] in RANDOMISED:
@@ -428,6 +457,12 @@ def execute_here(plan, keep_events=False):
                     'got': summarize(got), 'fresh': summarize(want)})
                 break
             env1 = env_digests(code, noise, rates)
+            if noise_b is not None and env0b is not None:
+                if env_digests(code, noise_b, rates) != env0b:
+                    violate('shared_tables_modified', {
+                        'decoder': dspec['kind'], 'call': oi,
+                        'changed': ['tables of the second noise model']})
+                    break
             if env1 != env0:
                 changed = sorted(k for k in env0 if env0[k] != env1.get(k))
                 violate('shared_tables_modified', {
